@@ -3,6 +3,7 @@ use crate::engine::{DynProp, Erased};
 pub mod c08;
 pub mod c09;
 pub mod c10;
+pub mod c11;
 pub mod lzcommon;
 
 pub fn registry() -> Vec<Box<dyn DynProp>> {
@@ -10,6 +11,7 @@ pub fn registry() -> Vec<Box<dyn DynProp>> {
         Box::new(Erased::<c08::C08>::new()),
         Box::new(Erased::<c09::C09>::new()),
         Box::new(Erased::<c10::C10>::new()),
+        Box::new(Erased::<c11::C11>::new()),
     ]
 }
 
